@@ -20,7 +20,9 @@ func zzC14WriteSequence(k int) {
 	teid := nondetU32("teid")
 	far := &gtp5gnl.FAR{Param: &gtp5gnl.ForwardParam{Creation: &gtp5gnl.HeaderCreation{Desc: 0x0100, TEID: teid, PeerAddr: net.IP{127, 0, 0, 1}, Port: 2152}}}
 	for i := 0; i < k; i++ {
-		n := nondetChoice("payload-len", 6) // 0..5: around the 4-octet alignment
+		// 0..5: around the 4-octet alignment; 243, 244, 1400: the length field's high octet in use,
+		// with and without the extension header (12 / 16 header octets)
+		n := []int{0, 1, 2, 3, 4, 5, 243, 244, 1400}[nondetChoice("payload-len", 9)]
 		pkt := nondetBytes("payload", n)
 		var qer *gtp5gnl.QER
 		qfi := uint8(0)
